@@ -123,6 +123,18 @@ def r1_record_keys(chk: Check):
                     gs = [(src(x.ast), pol) for x, pol in gl.guards(n) if x.kind == "test"]
                     if ("as_instance", False) in gs:
                         ok = True
+                        # a presence test of the key must have the polarity "present"
+                        for x, pol in gl.guards(n):
+                            if x.kind != "test":
+                                continue
+                            ct = rdl.canon(x.ast, x)
+                            if f"'{k}'" not in ct:
+                                continue
+                            absent_form = ct.endswith(" is None") or ct.startswith("not ")
+                            if pol is absent_form:
+                                ok = False
+                                chk.violation(f"core.objects:ConfigInformation.load_objects:restores {k} when present", f"`{attr}` is restored under `{ct}` = {pol}: the record key `{k}` must be restored exactly when it is present",
+                                              chk.loc(lo.module, s))
         chk.require(ok, f"core.objects:ConfigInformation.load_objects:restores {k}",
                     f"record key `{k}` is not restored into `{attr}` when loading configurations: the reloaded graph is not isomorphic and its recomputed identifier differs",
                     chk.loc(lo.module, lo.node))
